@@ -30,7 +30,8 @@ SimStep ==
     \/ /\ turn = "init" /\ OpenConns # {}
        /\ Init(Pick(OpenConns), Pick(Cids))
     \/ /\ turn = "will" /\ OpenConns # {}
-       /\ RegisterWill(Pick(OpenConns), Pick({"L", "L", "U"}), Pick(WillKeys), Pick({TRUE, FALSE, FALSE}))
+       /\ LET cmd == Pick({"L", "L", "U", "E", "E"}) IN
+          RegisterWill(Pick(OpenConns), cmd, IF cmd = "E" THEN 0 ELSE Pick(WillKeys), IF cmd = "E" THEN FALSE ELSE Pick({TRUE, FALSE, FALSE}))
     \/ /\ turn = "lock" /\ OpenConns # {}
        /\ ReqLock(Pick(OpenConns), Pick(Keys), Pick({TRUE, TRUE, FALSE}))
     \/ /\ turn = "unlock" /\ OpenConns # {}
